@@ -185,17 +185,33 @@ def r2(ctx, R):
     if not (okbp and okbp2):
         R.bad(fi, fi.node, "backup_path is no longer base_path + ('_BAK' + str(nth) if nth else '')",
               stmt="backup_path")
+    POS = ("nth == max_backups", "max_backups == nth", "nth >= max_backups", "max_backups <= nth")
+    NEG = ("nth != max_backups", "max_backups != nth", "nth < max_backups", "max_backups > nth")
+
+    def run(exists, limit):
+        def oc(e):
+            t = norm(e)
+            if t == "backup_path.exists()":
+                return "T" if exists else "F"
+            if t in POS:
+                return "T" if limit else "F"
+            if t in NEG:
+                return "F" if limit else "T"
+            return None
+        return q.run_abstract(fi, oc)
+
+    def hit(r_, x):
+        return any(i in r_ for i in q.nodes_for(fi, x))
+    below, at, absent = run(True, False), run(True, True), run(False, None)
     for d in dels:
         R.inst("`%s` only under nth == max_backups" % norm(d))
-        if not q.depends(fi, d, lambda e: norm(e) in ("nth == max_backups", "max_backups == nth",
-                                                     "nth >= max_backups"), "T"):
+        if hit(below, d) or hit(absent, d) or not hit(at, d):
             R.bad(fi, d, "a saved generation is deleted although the generation limit is not reached")
     R.inst("rename/recursion only when the path exists; rename not under the delete branch")
     for x in (rec[0], ren[0]):
-        if not q.depends(fi, x, lambda e: norm(e) == "backup_path.exists()", "T"):
+        if hit(absent, x) or not hit(below, x):
             R.bad(fi, x, "rotation step not guarded by backup_path.exists()")
-        if not q.depends(fi, x, lambda e: norm(e) in ("nth == max_backups", "max_backups == nth",
-                                                     "nth >= max_backups"), "F"):
+        if hit(at, x):
             R.bad(fi, x, "rotation step is not exclusive with the deletion branch")
 
 
